@@ -190,6 +190,18 @@ def step (tbl : Array SpD) (stack : List (Impl C)) (tok : String) : Option (List
         some (gradTree (← sp a) (← sp b) sh me pa dx sh.length :: st)
       else
         some (divTree (← sp a) (← sp b) sh me pa dx sh.length :: st)
+  | ["lap", a, sh, pa, dxs], st => do
+      -- Laplacian (`lap;S;shape;pad;dx0,dx1,…`)
+      let pa ← parsePad pa
+      if Gen.FiniteDiff.lapRejected.contains pa then none
+      let sh ← parseNatList sh
+      let dxl ← parseCList dxs
+      if dxl.length != sh.length then none
+      let ok := sh.all fun n => [FiniteDiff.Method.forward, FiniteDiff.Method.backward].all fun me =>
+        (FiniteDiff.sizeCheck Gen.FiniteDiff.guards (Gen.FiniteDiff.tbl me pa) pa n).isNone
+      if !ok then none
+      let dxa := dxl.toArray
+      some (lapTree (← sp a) sh pa (fun i => dxa.getD i 0) sh.length :: st)
   | ["sum"], b :: a :: st => some (.sum a b :: st)
   | ["comp"], b :: a :: st => some (.comp a b :: st)
   | ["lsc", c], a :: st => do some (.lscal a (← CRat.parse c) :: st)
